@@ -5,6 +5,8 @@ import (
 	"errors"
 	"fmt"
 	"io"
+	"runtime/debug"
+	"strings"
 	"sync"
 	"time"
 
@@ -296,8 +298,25 @@ func (l *Link) Alive() bool {
 	return !l.isDead && !l.clientClosed
 }
 
-func (l *Link) decode(b []byte) (message.Message, error) {
-	_, m, err := l.enc.DecodeFrom(bytes.NewReader(b))
+func (l *Link) decode(b []byte) (m message.Message, err error) {
+	if s := l.net.s; s.Prop == "C12" {
+		// the decoders must answer arbitrary bytes with an error or a message, never with a panic
+		defer func() {
+			if r := recover(); r != nil {
+				st := string(debug.Stack())
+				where := "decoder"
+				for _, ln := range strings.Split(st, "\n") {
+					if strings.HasPrefix(ln, "github.com/aptpod/iscp-go/encoding") {
+						where = strings.TrimSpace(strings.SplitN(ln, "(", 2)[0])
+						break
+					}
+				}
+				s.Violate("C12.decoder-panics", where, "DecodeFrom panicked on a %d-byte frame (%x...): %v", len(b), b[:min(len(b), 24)], r)
+				m, err = nil, fmt.Errorf("decoder panicked: %v", r)
+			}
+		}()
+	}
+	_, m, err = l.enc.DecodeFrom(bytes.NewReader(b))
 	return m, err
 }
 
